@@ -163,15 +163,16 @@ theorem binary_test_seeded_spec (rates : List Rat) (obs : List Nat) (nsim s fuel
   exact testBinaryStream_pos rates (nActive obs) nsim (stream s fuel) arrs
     (fun r hr => ((stream_spec s fuel).2 r hr).1) h arr harr
 
-/-- **the seeded L-test** (forecast mean < 10): whenever it returns, every simulated catalog has exactly the number of
-    events of ITS Poisson draw, the forecast's shape, and no event in a zero-rate bin -/
-theorem l_test_seeded_spec (rates : List Rat) (hnn : ∀ x ∈ rates, 0 ≤ x) (enlam : Rat) :
-    ∀ (nsim : Nat) (st : MT) (out : List (Nat × List Nat)), lTestLoop (weights rates) enlam nsim st = some out →
+/-- **the seeded L-test, for ANY sampler of the number of events** (numpy's multiplication method below a mean of 10, PTRS
+    from 10 on, or any other): whenever it returns, every simulated catalog has exactly the number of events of ITS draw,
+    the forecast's shape, and no event in a zero-rate bin -/
+theorem l_test_seeded_spec_any_sampler (rates : List Rat) (hnn : ∀ x ∈ rates, 0 ≤ x) (draw : MT → Option (Nat × MT)) :
+    ∀ (nsim : Nat) (st : MT) (out : List (Nat × List Nat)), lTestLoopWith (weights rates) draw nsim st = some out →
       out.length = nsim ∧ ∀ p ∈ out, p.2.sum = p.1 ∧ p.2.length = rates.length ∧
         ∀ k, k < rates.length → rates.getD k 0 = 0 → p.2.getD k 0 = 0
-  | 0, st, out, h => by simp [lTestLoop] at h; subst h; simp
+  | 0, st, out, h => by simp [lTestLoopWith] at h; subst h; simp
   | k + 1, st, out, h => by
-    simp only [lTestLoop] at h
+    simp only [lTestLoopWith] at h
     split at h
     · cases h
     · rename_i n st' hp
@@ -180,13 +181,13 @@ theorem l_test_seeded_spec (rates : List Rat) (hnn : ∀ x ∈ rates, 0 ≤ x) (
       · rename_i arr hsim
         split at h
         · rename_i hc
-          cases hr : lTestLoop (weights rates) enlam k (rand n st').2 with
+          cases hr : lTestLoopWith (weights rates) draw k (rand n st').2 with
           | none => rw [hr] at h; cases h
           | some tl =>
             rw [hr] at h
             simp only [Option.map_some, Option.some.injEq] at h
             subst h
-            obtain ⟨h1, h2⟩ := l_test_seeded_spec rates hnn enlam k _ tl hr
+            obtain ⟨h1, h2⟩ := l_test_seeded_spec_any_sampler rates hnn draw k _ tl hr
             refine ⟨by simp [h1], ?_⟩
             intro p hp'
             rcases List.mem_cons.mp hp' with rfl | h'
@@ -197,6 +198,16 @@ theorem l_test_seeded_spec (rates : List Rat) (hnn : ∀ x ∈ rates, 0 ≤ x) (
                 (fun u hu => ((rand_spec n st').2 u hu).1) arr hsim j hj hz
             · exact h2 p h'
         · cases h
+
+/-- the two samplers of the model: multiplication method with `exp(-mean)` supplied (exact layer), and numpy's full
+    `poisson(mean)` incl. PTRS for means ≥ 10 (Float layer) -/
+theorem l_test_seeded_spec (rates : List Rat) (hnn : ∀ x ∈ rates, 0 ≤ x) (enlam : Rat) (lam : Float) (nsim s : Nat) :
+    (∀ out, lTestSeeded rates enlam nsim s = some out → out.length = nsim ∧ ∀ p ∈ out, p.2.sum = p.1 ∧ p.2.length = rates.length ∧
+        ∀ k, k < rates.length → rates.getD k 0 = 0 → p.2.getD k 0 = 0) ∧
+    (∀ out, lTestSeededF rates lam nsim s = some out → out.length = nsim ∧ ∀ p ∈ out, p.2.sum = p.1 ∧ p.2.length = rates.length ∧
+        ∀ k, k < rates.length → rates.getD k 0 = 0 → p.2.getD k 0 = 0) :=
+  ⟨fun out h => l_test_seeded_spec_any_sampler rates hnn _ nsim _ out h,
+   fun out h => l_test_seeded_spec_any_sampler rates hnn _ nsim _ out h⟩
 
 /-- **a seeded call does not see the ambient generator state** (result AND the state it leaves behind) -/
 theorem seeded_call_ignores_ambient (c : Call) (s : Nat) (hs : c.seed = some s) (g₁ g₂ : MT) :
@@ -234,6 +245,8 @@ example : ValidRates [0, 1, 0, 3, 0] := ⟨by decide +kernel, by decide +kernel,
 example : ∃ arrs, poissonTestSeeded [0, 1, 0, 3, 0] [0, 1, 0, 1, 0] 3 0 = some arrs ∧ arrs.length = 3 ∧
     ∀ arr ∈ arrs, arr.sum = 2 ∧ arr.length = 5 ∧ ∀ k, k < 5 → ([0, 1, 0, 3, 0] : List Rat).getD k 0 = 0 → arr.getD k 0 = 0 :=
   poisson_test_seeded_total _ ⟨by decide +kernel, by decide +kernel, ⟨1, by decide +kernel⟩⟩ _ 3 0
+-- the L-test loop with a sampler that always says 2, on weights 0, 1/4, 1/4, 1, 1: the hypothesis of the theorem is met
+example (st : MT) : ∃ out, lTestLoopWith (weights [0, 1, 0, 3, 0]) (fun st => some (2, st)) 0 st = some out := ⟨[], rfl⟩
 -- a session: an unseeded call, a seeded one, an unseeded one — the last two results do not depend on the start state
 example (g₁ g₂ : MT) (c₀ c₂ : Call) (c₁ : Call) (h : c₁.seed = some 0) :
     (session ([c₀] ++ c₁ :: [c₂]) g₁).drop 1 = (session ([] ++ c₁ :: [c₂]) g₂).drop 0 :=
